@@ -10,7 +10,7 @@ import time
 from . import extract, facts
 
 VERIF = extract.VERIF
-EVID = os.path.join(VERIF, "evidence")
+EVID = os.environ.get("JXLV_EVID") or os.path.join(VERIF, "evidence")
 REPLAY = os.path.join(EVID, "replay")
 KNOWN = os.path.join(VERIF, "known_findings.json")
 
